@@ -36,13 +36,18 @@ class _LoadAndSave:
     customize the behavior if needed (for instance, to introduce additional locks).
     """
 
-    def __init__(self, collection):
+    def __init__(self, collection, load=True):
         self._collection = collection
+        # Destructive operations (clear, reset) on the root replace the whole
+        # content and do not need to load it first, but they must hold the
+        # same locks, in the same order, as every other write operation.
+        self._load = load
 
     def __enter__(self):
         self._collection._thread_lock.__enter__()
         try:
-            self._collection._load()
+            if self._load:
+                self._collection._load()
         except BaseException as error:
             # The with-body (and hence __exit__) will not run: the lock must
             # not stay held when the load fails.
@@ -191,10 +196,12 @@ class SyncedCollection(Collection):
             self._root = root
             self._suspend_sync = root._suspend_sync
             self._load_and_save = root._load_and_save
+            self._lock_and_save = root._lock_and_save
         else:
             self._root = None
             self._suspend_sync = _CounterContext()
             self._load_and_save = self._LoadSaveType(self)
+            self._lock_and_save = self._LoadSaveType(self, load=False)
 
         if self._supports_threading:
             with self._cls_lock:
